@@ -45,7 +45,7 @@ func (g *gen) decls(k int, depth int, classes bool) []sx.Stmt {
 	var out []sx.Stmt
 	for i := 0; i < k; i++ {
 		n := g.name()
-		max := 12
+		max := 13
 		if g.flat {
 			max = 5
 		}
@@ -71,6 +71,10 @@ func (g *gen) decls(k int, depth int, classes bool) []sx.Stmt {
 			}
 		case 5, 6:
 			m := g.name()
+			if g.r.Intn(2) == 0 {
+				// the same few connections recur in the base and in sibling boards
+				n, m = "a", g.pick([]string{"b", "c"})
+			}
 			if m == n {
 				m = "z"
 			}
@@ -110,6 +114,15 @@ func (g *gen) decls(k int, depth int, classes bool) []sx.Stmt {
 				out = append(out, sx.F(sx.U(pat, "style", "opacity"), sx.VS(lit(fmt.Sprintf("0.%d", 10+g.nglob)))))
 				g.c.Count("decl:glob")
 			}
+		case 11:
+			if depth == 0 && g.globs {
+				// a connection-index glob: often declared before any connection it matches exists
+				g.nglob++
+				pats := []string{"*", "*", "a*", "*"}
+				out = append(out, sx.Stmt{T: "e", Src: sx.U(g.pick(pats)), Ar: "->", Dst: sx.U(g.pick(pats)), Ix: "*",
+					EK: sx.U("style", "stroke-width"), V: sx.VS(lit(fmt.Sprint(1 + g.nglob%12)))})
+				g.c.Count("decl:connection-index-glob")
+			}
 		default:
 			out = append(out, sx.F(sx.U(n, "style", "stroke"), sx.VS(lit(g.pick(colours)))))
 		}
@@ -125,6 +138,9 @@ func (g *gen) board(lvl int, classes bool, inStep bool) []sx.Stmt {
 		var keep []sx.Stmt
 		for _, s := range body {
 			if len(s.K) > 0 && (s.K[0].S == "*" || s.K[0].S == "**" || s.K[0].S == "a*") {
+				continue
+			}
+			if s.T == "e" && s.Ix == "*" {
 				continue
 			}
 			keep = append(keep, s)
@@ -182,6 +198,13 @@ func (g *gen) prog() []sx.Stmt {
 	if g.globs && g.r.Intn(2) == 0 {
 		pre = append(pre, sx.F(sx.U("***", "style", "stroke-width"), sx.VS(lit("3"))))
 		g.c.Count("feature:triple-glob")
+	}
+	if g.globs && g.r.Intn(2) == 0 {
+		// a connection-index glob at the top of the base: no connection matches it yet
+		g.nglob++
+		pre = append(pre, sx.Stmt{T: "e", Src: sx.U("*"), Ar: "->", Dst: sx.U("*"), Ix: "*",
+			EK: sx.U("style", "stroke-width"), V: sx.VS(lit(fmt.Sprint(1 + g.nglob%12)))})
+		g.c.Count("feature:connection-index-glob-first")
 	}
 	if g.flat {
 		g.c.Count("fragment:flat")
